@@ -37,13 +37,13 @@ import (
 func init() {
 	Registry["C18"] = &Prop{
 		Plan: func(tier string) Plan {
-			return Plan{Level: "exploration", NCases: c18Matrix + pick(tier, 16, 300), Batch: 2, CaseTimeout: 180,
+			return Plan{Level: "exploration", NCases: c18Matrix + pick(tier, 16, 3000), Batch: 2, CaseTimeout: 180,
 				Rule: "cases 0-19 (role matrix): every request type of both APIs (etcd Txn create/update/delete, Range get/list/count/partitions, Watch, range-stream watch, Lease; native Create/Update/Delete/Compact/Get/Range/Count/ListPartition/RangeStream/Watch) x {leader, follower} x {proxy on, off} x {leader reachable, unreachable, HTTP 400, HTTP 500, the recorded leader being a real node that is not leading (its real /status handler answers)}, handlers built over a call-recording Backend, the REAL revision syncer pointed at an httptest leader, a stub election and a recording proxy. " +
 					"oracle: on a follower the backend never sees Create/Update/Delete/Compact/Watch (request rejected Unavailable or handed to the proxy), every backend read is preceded by SetCurrentRevision(v) with v served by the leader during this very request, a failed sync gives an error and no backend read; on the leader writes reach the backend and no sync happens. " +
 					"further cases (two nodes): a leader node and a follower node over one store with the real revision syncer over HTTP; writers on the leader, concurrent readers on the follower; in a third of them the verif hooks hold one reader between fetching and setting the revision while another sits between its own set and its backend read; in another third five readers holding different fetched revisions are released into the set at the same instant (150 rounds). oracle: the follower's response header >= the leader's committed revision sampled before the request began, and the data equals the reference snapshot at the header revision. " +
 					"non-trivial = matrix case with all request types exercised, or two-node case with >=20 follower reads overlapping leader writes; distinct by (role, proxy, leader mode) / (placement, read count)",
 				Assumptions: []string{"the etcd proxy is a recording stub (the real one needs an etcd client connection to the leader)", "in the two-node cases the election is a stub; the status handler is the real one's logic re-served from the leader's backend"},
-				MinConcl:    c18Matrix + pick(tier, 12, 250)}
+				MinConcl:    c18Matrix + pick(tier, 12, 2500)}
 		},
 		Name: func(c *harness.Case) string {
 			if c.Index < c18Matrix {
